@@ -98,7 +98,7 @@ func (ctx *EvalCtx) specialForm(name string, x *ast.CallExpr) (CV, bool) {
 		if !ok {
 			ctx.fail("deref of non-pointer")
 		}
-		return CV{ex.load(ctx.state(), v.t, pt.Elem()), pt.Elem()}, true
+		return CV{ctx.loadedInContract(ex.load(ctx.state(), v.t, pt.Elem()), pt.Elem()), pt.Elem()}, true
 	case "any":
 		// any(T): an arbitrary but fixed value of type T - the same one in every clause of the run, so a clause
 		// proved about it holds for every value of T (a universally quantified logical variable)
